@@ -803,6 +803,14 @@ class StmtGen:
         else:
             s["query"] = self.query(1)
             s["query"].pop("with_", None)
+            if s["returning"]:
+                # listed known finding `returning-taken-as-alias`: RETURNING directly after a FROM item without alias
+                # (or after a select item) is swallowed as an implicit alias; keep the query's tail out of that shape
+                q = s["query"]
+                while q["kind"] == "setop": q = q["right"]
+                tail = q["where"] is not None or q["group_by"] or q["order_by"] or q["limit"] is not None or q["offset"] is not None or q["fetch"]
+                if not q["from_"]: s["returning"] = []
+                elif not tail: q["where"] = rand_expr(r, 1)
         if r.random() < 0.3:
             c = dict(target=[r.choice(IDENTS) for _ in range(r.randrange(0, 3))], constraint="", nothing=r.random() < 0.5, updates=[], where=None)
             if not c["nothing"]:
